@@ -10,5 +10,8 @@ for f in specs/*.tla; do
     echo "SANY failed for $m"; tail -5 build/sany.$m.log; rc=2
   fi
 done
+if [ $rc = 0 ]; then
+  PYTHONWARNINGS="ignore::SyntaxWarning" /venv/bin/python harness/selftest.py > build/selftest.log 2>&1 || { echo "selftest failed"; tail -5 build/selftest.log; rc=2; }
+fi
 [ $rc = 0 ] && echo "setup ok"
 exit $rc
